@@ -447,6 +447,10 @@ def verify_contract(c: Contract, *, only_case=None):
             exc = None
             res = None
             from . import ops as _ops
+            if ctx.get("no_div"):
+                # divisions whose denominator is non-zero only by a documented assumption on the inputs
+                e.div_assume = True
+                e.assumptions_used.add(f"denominators in {c.qualname} assumed non-zero: {ctx['no_div']}")
             with shimmed(), stubbed(except_for={c.qualname} | c.inline), _ops.scan_rules(*ctx.get("scan_rules", [])):
                 try:
                     import io
